@@ -38,7 +38,7 @@ TYPES = ["integer", "length", "oid", "bitstring", "octet", "sequence",
 def budget(tier):
     if tier == "quick":
         return dict(runs=250000, wall=60, chunk=2000)
-    return dict(runs=3000000, wall=600, chunk=4000)
+    return dict(runs=6000000, wall=700, chunk=4000)
 
 
 def _int_value(r):
